@@ -102,6 +102,17 @@ def deductive(report, targets, contract_mods, preludes, theory=None, timeout=Non
                 results[i].update(verdict=r2['verdict'], solver=r2['solver'], output=r2['output'])
             results[i]['seconds'] += r2['seconds']
             results[i]['tried'] = results[i]['tried'] + r2['tried']
+    # last resort on unchanged code only: what is still open was discharged when the baseline was recorded; give it the machine
+    # (a few jobs at a time, 10x the budget) before reporting "undecided" - a loaded host must not turn into a verdict
+    still = [i for i in same if results[i]['verdict'] == 'unknown'
+             and baseline.get(results[i]['function'], {}).get('obligations', {}).get(results[i]['name']) == 'unsat'][:12]
+    if still:
+        again = smt.run_many([(results[i]['name'], results[i]['smt']) for i in still], timeout=timeout * 10, jobs=3)
+        for i, r2 in zip(still, again):
+            if r2['verdict'] != 'unknown':
+                results[i].update(verdict=r2['verdict'], solver=r2['solver'], output=r2['output'])
+            results[i]['seconds'] += r2['seconds']
+            results[i]['tried'] = results[i]['tried'] + r2['tried']
     report.add_deductive(gens, results)
     # vacuity guard: a must-fail canary behind the path conditions of each function
     canaries = []
